@@ -82,7 +82,7 @@ Theorem C01_stmt_first_instance : forall mk s e stmts t d d',
   exists st fs idx ts rs,
     stmt_container t = Some (st, fs, idx) /\ targets (nth_val idx fs) = Some ts /\
     Sol val val data (dots_item T_S_ast_Stmt) (mtch mk) push_dots
-        (dots_stmt s :: stmts ++ [dots_stmt e]) ts (set_stmt st fs d) rs d'.
+        (with_implicit s e stmts) ts (set_stmt st fs d) rs d'.
 Proof.
   intros mk s e stmts t d d' Hne H. unfold mtch_stmts in H.
   destruct (stmt_container t) as [[[st fs] idx]|] eqn:C; [|discriminate].
